@@ -59,6 +59,18 @@ pub mod read {
             }
             Ok(n)
         }
+        /// Direct implementation (std's default `read_to_end` with its adaptive probing is very
+        /// expensive to execute symbolically and is not part of any claim).
+        fn read_to_end(&mut self, buf: &mut Vec<u8>) -> io::Result<usize> {
+            let start = buf.len();
+            let n = self.inner.read_to_end(buf)?;
+            let mut i = start;
+            while i < buf.len() {
+                buf[i] ^= TAG_INFLATE;
+                i += 1;
+            }
+            Ok(n)
+        }
     }
 }
 
